@@ -57,7 +57,12 @@ func cmpBlock(orig, mut *consensusAPI.Block) (string, string, error) {
 		return "height", "", nil
 	case orig.Hash != mut.Hash:
 		return "hash", "", nil
-	case orig.Time.Unix() != mut.Time.Unix():
+	case !orig.Time.Equal(mut.Time):
+		// verifyBlock binds the provider's Time to the header time truncated to the
+		// second EXACTLY: any other instant, also inside the same second, is altered content.
+		if orig.Time.Unix() == mut.Time.Unix() {
+			return "time.subsecond", "", nil
+		}
 		return "time", "", nil
 	case orig.StateRoot.Namespace != mut.StateRoot.Namespace:
 		return "state_root.namespace", "", nil
@@ -84,8 +89,6 @@ func cmpBlock(orig, mut *consensusAPI.Block) (string, string, error) {
 	}
 	// Outside the normal form.
 	switch {
-	case orig.Time.Nanosecond() != mut.Time.Nanosecond():
-		return "", "time.subsecond", nil
 	case orig.Size != mut.Size:
 		return "", "size", nil
 	case od.commit.Height != md.commit.Height:
